@@ -37,6 +37,7 @@ func init() {
 		{hostGo, "setRemove", "Set.remove"},
 		{hostGo, "dropHealthy", "Set.dropHealthy"},
 		{hostGo, "addToHealthy", "Set.addToHealthy"},
+		{hostGo, "putHealthy", "Set.putHealthy"},
 		{hostGo, "removeFromHealthy", "Set.removeFromHealthy"},
 		{hostGo, "buildHealthyCache", "Set.buildHealthyCache"},
 		{hostGo, "markHealthy", "Set.MarkHostHealthy"},
@@ -67,6 +68,8 @@ func init() {
 		{colGo, "collect", "Collector.collect"},
 		{colGo, "evictStale", "Collector.evictStale"},
 		{colGo, "hotKeys", "Collector.HotKeys"},
+		{colGo, "allocCounter", "Collector.AllocCounter"},
+		{cntGo, "free", "Counter.Free"},
 		{colGo, "halve", "logrithmCounter.Halve"},
 	})
 	const cfgGo = "config/config.go"
@@ -88,10 +91,32 @@ func init() {
 	})
 	const reqGo = "proc/redis/request.go"
 	const hdlGo = "proc/redis/handler.go"
+	const hrGo = "cmd/samaritan/hotrestart/hotrestart.go"
+	const rpcGo = "cmd/samaritan/hotrestart/rpc.go"
+	registerStmts("HotText", []stmtItem{
+		{hrGo, "handleChild", "Restarter.handleChild"},
+		{hrGo, "dispatch", "Restarter.dispatch"},
+		{rpcGo, "readMessage", "readMessage"},
+		{rpcGo, "readMessages", "readMessages"},
+		{rpcGo, "parseMessage", "parseMessage"},
+		{rpcGo, "sendMessage", "sendMessage"},
+	})
+	const bufGo = "proc/redis/bufio.go"
+	registerStmts("Bufio", []stmtItem{
+		{bufGo, "fill", "Reader.fill"},
+		{bufGo, "read", "Reader.Read"},
+		{bufGo, "readByte", "Reader.ReadByte"},
+		{bufGo, "peekByte", "Reader.PeekByte"},
+		{bufGo, "readSlice", "Reader.ReadSlice"},
+		{bufGo, "readBytes", "Reader.ReadBytes"},
+		{bufGo, "readFull", "Reader.ReadFull"},
+	})
 	registerStmts("ScanText", []stmtItem{
 		{reqGo, "newScanRequest", "newScanRequest"},
+		{reqGo, "parseScanCursor", "parseScanCursor"},
 		{reqGo, "convert", "scanRequest.Convert"},
 		{hdlGo, "handleScan", "handleScan"},
+		{hdlGo, "scanAddrs", "scanAddrs"},
 	})
 	const hkfGo = "proc/redis/filter_hotkey.go"
 	const cpsGo = "proc/redis/filter_compress.go"
